@@ -32,6 +32,13 @@
 #include <string.h>
 #include <stdint.h>
 
+/* every time-out and every pacing delay of this harness is multiplied by g_speed (>= 1): the factor is
+ * measured by props/C13.py with the "calibrate" op on the machine and under the load the check runs on
+ * (VDRV_SPEED) and doubled for confirmation re-runs (VDRV_SLOW) */
+static double g_speed = 1.0;
+static int sp(int ms) { double v = ms * g_speed; return v > 2000000000.0 ? 2000000000 : (int)v; }
+#define usleep(x) usleep((useconds_t)((double)(x) * g_speed))
+
 #define W 32
 #define H 24
 #define MAXCL 256
@@ -203,7 +210,7 @@ static void on_alarm(int sig) {
   __real_write(1, b, n);
   _exit(3);
 }
-static void phase(const char *p, int secs) { g_phase = p; alarm(secs); }
+static void phase(const char *p, int secs) { g_phase = p; alarm((unsigned)sp(secs) + 1); }
 
 /* ---- a small RFB client (harness threads; never perturbed) */
 typedef struct { int kind; int port; int id; int ok; int converged; int updates; int why; uint32_t fb[W * H]; volatile int *stop; } cli_t;
@@ -213,7 +220,7 @@ static int rd_full(int fd, void *buf, size_t n, int ms) {
   size_t off = 0;
   while (off < n) {
     struct pollfd pf = {fd, POLLIN, 0};
-    int r = poll(&pf, 1, ms);
+    int r = poll(&pf, 1, sp(ms));
     ssize_t k;
     if (r <= 0) { if (getenv("VDRV_TRACE")) fprintf(stderr, "rd_full poll=%d errno=%d off=%zu n=%zu\n", r, errno, off, n); return -1; }
     k = __real_read(fd, (char *)buf + off, n - off);
@@ -375,9 +382,9 @@ static int run_stress(unsigned seed, int ypct, int nstay, int nabrupt, int nslow
   for (i = 0; i < ncycles; i++) {
     cli_t c; memset(&c, 0, sizeof c); c.kind = K_CYCLE; c.port = port; c.id = i; c.stop = &stop;
     client_main(&c);
-    { int w = 0; while (g_gone < g_new && w++ < 4000) usleep(500); }
+    { int w = 0; while (g_gone < g_new && w++ < 20000) usleep(500); }
   }
-  { int w = 0; while ((g_gone < g_new || g_new < ncycles) && w++ < 4000) usleep(500); }
+  { int w = 0; while ((g_gone < g_new || g_new < ncycles) && w++ < 20000) usleep(500); }
   /* listener still runs; no client is connected now.  A client whose teardown did not complete within
      the wait (its input thread blocked in THREAD_JOIN) still has its two threads alive. */
   stuck = g_new - g_gone; cycles_done = g_gone;
@@ -702,7 +709,7 @@ static int run_phases(unsigned seed, int ypct, int rounds) {
     /* every staying client now asks once, incrementally, and must be served */
     for (k = 0; k < 3; k++) pc_fur(&c[k], 1);
     for (k = 0; k < 3; k++) {
-      int rr = pc_settle(&c[k], fb, 1, 8000);
+      int rr = pc_settle(&c[k], fb, 1, 10000);
       if (rr) {
         size_t l = strlen(failtxt);
         fails++;
@@ -741,7 +748,7 @@ static int sock_alive(int fd, int ms) {           /* 1 = open and served, 0 = cl
   unsigned char m[10] = {3, 0, 0, 0, 0, 0, 0, 4, 0, 4}; unsigned char h[16]; static unsigned char px[W * H * 4]; int waited = 0;
   if (wr_full(fd, m, 10)) return 0;
   while (waited < ms) {
-    struct pollfd pf = {fd, POLLIN, 0}; int r = poll(&pf, 1, 50), n, i; ssize_t k;
+    struct pollfd pf = {fd, POLLIN, 0}; int r = poll(&pf, 1, sp(50)), n, i; ssize_t k;
     if (r <= 0) { waited += 50; continue; }
     k = __real_read(fd, h, 1);
     if (k <= 0) return 0;
@@ -780,11 +787,11 @@ static int run_policy(unsigned seed, int ypct, int always, int never, int dd, in
   phase("policy-connect", 30);
   g_hs_shared = 1; fa = cl_connect(port);
   if (fa < 0 || cl_handshake(fa)) { printf("result error=connectA\n"); return 1; }
-  if (sock_alive(fa, 3000) != 1) { printf("result error=initialA\n"); return 1; }
+  if (sock_alive(fa, 10000) != 1) { printf("result error=initialA\n"); return 1; }
   g_hs_shared = bshared; fb_ = cl_connect(port);
   if (fb_ < 0) { printf("result error=connectB\n"); return 1; }
-  b_st = cl_handshake(fb_) ? 0 : sock_alive(fb_, 3000);
-  a_st = sock_alive(fa, 3000);
+  b_st = cl_handshake(fb_) ? 0 : sock_alive(fb_, 10000);
+  a_st = sock_alive(fa, 10000);
   g_hs_shared = 1;
   exclusive = never || (!always && !bshared);
   ok_pol = exclusive ? (dd ? (a_st == 1 && b_st == 0) : (a_st == 0 && b_st == 1)) : (a_st == 1 && b_st == 1);
@@ -794,9 +801,9 @@ static int run_policy(unsigned seed, int ypct, int always, int never, int dd, in
   survivor_fd = a_st == 1 ? fa : fb_; survivor_slot = a_st == 1 ? 0 : 1;
   phase("policy-teardown", 20);
   { int closed_by_server = (a_st == 0) + (b_st == 0);
-    if (!wait_gone(closed_by_server, 5000)) tore = 0;          /* the refused / replaced one */
-    if (route == 0) { close(survivor_fd); if (!wait_gone(closed_by_server + 1, 5000)) tore = 0; }
-    else if (route == 1 && slots[survivor_slot].live) { LIBCALL(rfbCloseClient(slots[survivor_slot].cl)); if (!wait_gone(closed_by_server + 1, 5000)) tore = 0; close(survivor_fd); }
+    if (!wait_gone(closed_by_server, 10000)) tore = 0;          /* the refused / replaced one */
+    if (route == 0) { close(survivor_fd); if (!wait_gone(closed_by_server + 1, 10000)) tore = 0; }
+    else if (route == 1 && slots[survivor_slot].live) { LIBCALL(rfbCloseClient(slots[survivor_slot].cl)); if (!wait_gone(closed_by_server + 1, 10000)) tore = 0; close(survivor_fd); }
   }
   printf("presult2 torn_down_in_time=%d new=%d gone=%d\n", tore, g_new, g_gone);
   fflush(stdout);
@@ -898,7 +905,7 @@ static int run_fragment(unsigned seed, int ypct) {
   }
   /* the peer asks again (incrementally) until it shows the application's framebuffer */
   phase("fragment-settle", 40);
-  for (rounds = 0; rounds < 40; rounds++) {
+  for (rounds = 0; rounds < 60; rounds++) {
     unsigned char m[10] = {3, 1, 0, 0, 0, 0, (FW >> 8), (FW & 255), (FH >> 8), (FH & 255)};
     diff = 0; for (i = 0; i < FW * FH; i++) if (cfb[i] != fbuf[i]) diff++;
     if (!diff) break;
@@ -956,7 +963,7 @@ static void run_case(char *line) {
   { /* the child has its own watchdog (alarm); under TSan a signal may never be delivered when every
        thread is blocked, so the parent bounds the case as well */
     int waited = 0, r;
-    while ((r = waitpid(pid, &status, WNOHANG)) == 0 && waited < 2400) { usleep(100000); waited++; }
+    while ((r = waitpid(pid, &status, WNOHANG)) == 0 && waited < 3000) { usleep(100000); waited++; }
     if (r == 0) { kill(pid, SIGKILL); while (waitpid(pid, &status, 0) < 0 && errno == EINTR) ; printf("\n#hang phase=%s (killed by the parent)\nresult hang=1\n", "unknown"); fflush(stdout); return; }
   }
   if (WIFEXITED(status) && WEXITSTATUS(status) == 3) printf("result hang=1\n");
@@ -964,14 +971,30 @@ static void run_case(char *line) {
   fflush(stdout);
 }
 
+static void *calib_thread(void *p) { return p; }
+static void calibrate(void) {
+  struct timeval a, b; volatile unsigned long x = 0; unsigned long i; int k; double save = g_speed;
+  g_speed = 1.0;
+  gettimeofday(&a, NULL);
+  for (i = 0; i < 30000000UL; i++) x += i;
+  for (k = 0; k < 100; k++) { pthread_t th; __real_pthread_create(&th, NULL, calib_thread, NULL); __real_pthread_join(th, NULL); }
+  for (k = 0; k < 100; k++) usleep(1000);
+  gettimeofday(&b, NULL);
+  g_speed = save;
+  printf("calib ms=%ld\n", (long)((b.tv_sec - a.tv_sec) * 1000 + (b.tv_usec - a.tv_usec) / 1000));
+}
+
 int main(void) {
   static char line[4096];
   setvbuf(stdout, NULL, _IOLBF, 0);
+  { const char *e = getenv("VDRV_SPEED"), *f = getenv("VDRV_SLOW"); double v = e ? atof(e) : 1.0, w = f ? atof(f) : 1.0;
+    if (v < 1.0) v = 1.0; if (w < 1.0) w = 1.0; g_speed = v * w; if (g_speed > 200.0) g_speed = 200.0; }
   while (fgets(line, sizeof line, stdin)) {
     size_t n = strlen(line);
     while (n && (line[n - 1] == '\n' || line[n - 1] == '\r')) line[--n] = 0;
     if (!n) continue;
     if (!strncmp(line, "case ", 5)) { printf("%s\n", line); continue; }
+    if (!strncmp(line, "calibrate", 9)) { calibrate(); continue; }
     if (!strncmp(line, "stress ", 7) || !strncmp(line, "force ", 6) || !strncmp(line, "phases ", 7) || !strncmp(line, "policy ", 7) || !strncmp(line, "fragment ", 9)) run_case(line);
   }
   fflush(stdout);
